@@ -71,7 +71,7 @@ def gen_abf(r, cid, big=False):
             if output and r.random() < 0.15:
                 s.append(["o", w])
             if r.random() < p_restart and t < t_end and (mode != "oldfmt" or (t > 0 and (S0 + t) % F == 0)):
-                s.append(["R" if mode == "oldfmt" else "r", w, r.choice(["text", "binary"])])
+                s.append(["R", w, r.choice(["text", "binary"])] if mode == "oldfmt" else ["r", w, r.choice(["text", "binary", "str", "buf"])])
                 s.append(["s", w, bins, [V.dyadic(r, -8, 8) for _ in range(nd)], frac])   # the repeated step
         seqs.append(s)
     # interleave: a walker that issued an exchange step is blocked until all walkers issued theirs
@@ -1046,7 +1046,7 @@ def gen_czar(r, cid, big=False):
     restart_at = {}
     if r.random() < 0.5:
         for _ in range(r.randint(1, 2)):
-            restart_at[str(r.randint(1, T - 2))] = [r.choice(["text", "binary"]) for _ in range(n)]
+            restart_at[str(r.randint(1, T - 2))] = [r.choice(["text", "binary", "str", "buf"]) for _ in range(n)]
     return {"kind": "czar", "id": cid, "n": n, "nbins": nb, "freq": freq, "script": script, "hist": r.random() < 0.3, "twice": r.random() < 0.4, "restart_at": restart_at, "steps": steps, "gather_at": gather_at}
 
 
